@@ -516,10 +516,15 @@ func (obj *Flavor) LoadForm() slip.Object {
 		} else {
 			var iiv slip.List
 			iiv = append(iiv, slip.Symbol(":inittable-instance-variables"))
+			names := make([]string, 0, len(obj.initable))
 			for k, v := range obj.initable {
 				if v {
-					iiv = append(iiv, slip.Symbol(k[1:]))
+					names = append(names, k[1:])
 				}
+			}
+			sort.Strings(names)
+			for _, name := range names {
+				iiv = append(iiv, slip.Symbol(name))
 			}
 			df = append(df, iiv)
 		}
